@@ -59,6 +59,9 @@ struct Model {
 };
 
 // ---- targets
+static inline int ownerOf(const VMutex & m) { return m.owner; }
+template <typename M> static inline int ownerOf(const M &) { return -7; }   // other mutex types: only used by the preemption-bounded units
+
 template <typename Pol>
 struct ListT {
 	typedef eventpp::CallbackList<void(int), Pol> CL;
@@ -75,6 +78,14 @@ struct ListT {
 	bool empty(int) { return list.empty(); }
 	void invoke(int, int v) { list(v); }
 	template <typename F> void forEach(int, F f) { list.forEach(f); }
+	template <typename IdOf> uint64_t sharedHash(IdOf idOf) const { return hashList(list, idOf); }
+	template <typename L, typename IdOf> static uint64_t hashList(const L & l, IdOf idOf) {
+		uint64_t h = 17; int guard = 0;
+		for(auto n = l.head; n && guard < 32; n = n->next, ++guard) { h = mix64(h, (uint64_t)idOf(n->callback) * 8 + (n->counter == 0 ? 1 : 0) + (n->previous ? 2 : 0)); h = mix64(h, n->previous ? (uint64_t)idOf(n->previous->callback) + 50 : 49); }
+		h = mix64(h, l.tail ? (uint64_t)idOf(l.tail->callback) + 100 : 99);
+		h = mix64(h, (uint64_t)l.currentCounter.value); h = mix64(h, (uint64_t)(ownerOf(l.mutex) + 9));
+		return h;
+	}
 };
 
 template <typename Pol>
@@ -93,6 +104,12 @@ struct DispT {
 	bool empty(int e) { return !d.hasAnyListener(1 + e); }
 	void invoke(int e, int v) { d.dispatch(1 + e, v); }
 	template <typename F> void forEach(int e, F f) { d.forEach(1 + e, f); }
+	template <typename IdOf> uint64_t sharedHash(IdOf idOf) const {
+		uint64_t h = 23;
+		for(int e = 1; e <= 2; ++e) { auto it = d.eventCallbackListMap.raw().find(e); if(it == d.eventCallbackListMap.raw().end()) h = mix64(h, 5); else h = mix64(h, ListT<Pol>::hashList(it->second, idOf)); }
+		h = mix64(h, (uint64_t)(ownerOf(d.listenerMutex) + 9));
+		return h;
+	}
 };
 
 template <typename Target>
@@ -106,6 +123,17 @@ struct Run {
 	long clk = 0;
 	long tick() { return ++clk; }
 	int nInitial = 3;
+	bool stateful = false;
+	static int idOfCallback(const std::function<void(int)> & cb) { const Cb * c = cb.template target<Cb>(); return c ? c->id : 31; }
+	uint64_t sharedHash() const { HarnessScope hs; return t ? t->sharedHash(&idOfCallback) : 0; }
+	void stateHash(uint64_t & a, uint64_t & b) {
+		HarnessScope hs;
+		uint64_t h = sched().threadsHash();
+		h = mix64(h, sharedHash());
+		for(auto & o : ops) { h = mix64(h, (uint64_t)(o.start + 2)); h = mix64(h, (uint64_t)(o.end + 2)); h = mix64(h, (uint64_t)(o.result + 3)); for(int v : o.visited) h = mix64(h, (uint64_t)v + 1000); }
+		h = mix64(h, ctx.failed ? 1 : 0);
+		a = h; b = mix64(h ^ 0x5bd1e9955bd1e995ULL, h >> 11);
+	}
 	Run(Ctx & c, const Config & cf) : ctx(c), cfg(cf) { for(int i = 0; i < MAXT; ++i) curVisit[i] = nullptr; }
 	int me() const { VThread * m = Sched::me(); return m ? m->id : 0; }
 
@@ -234,18 +262,21 @@ struct Run {
 		{
 			Target target; t = &target;
 			target.share();
+			if(stateful) { s.stateHash = [this](uint64_t & a, uint64_t & b) { stateHash(a, b); }; s.sharedHash = [this]() { return sharedHash(); }; }
 			try {
 				for(int i = 0; i < nInitial; ++i) handles[i] = target.append(0, Cb{this, i});
 				size_t base = 0;
 				for(size_t th = 0; th < cfg.threads.size(); ++th) {
 					size_t b = base, n = cfg.threads[th].size(); int tn = (int)th + 1;
-					s.spawn([this, b, n, tn]() { for(size_t i = 0; i < n; ++i) doOp(tn, ops[b + i]); });
+					s.spawn([this, b, n, tn]() { for(size_t i = 0; i < n; ++i) { sched().opBegin((int)i + 1); doOp(tn, ops[b + i]); } sched().opBegin(1000); });
 					base += n;
 				}
 				s.joinAll();
 			}
 			catch(SchedAbort &) { aborted = true; }
+			s.stateHash = nullptr; s.sharedHash = nullptr;
 			s.end();
+			if(s.pruned) { t = nullptr; return; }     // reached a state that was expanded before: outcome judged there
 			if(!aborted) {
 				// final content by enumeration, then a destructive probe that exposes damaged back links
 				for(int li = 0; li < (Target::hasE2 ? 2 : 1); ++li) {
@@ -379,6 +410,61 @@ static void addFamily(const std::string & fam, bool disp, int boundQuick, int bo
 	}
 }
 
+template <typename Target>
+static void addStatefulFamily(const std::string & fam, bool disp, int minTier) {
+	for(int shard = 0; shard < NSHARDS; ++shard) {
+		Unit u;
+		u.name = fmt("%s/shard%02d", fam.c_str(), shard);
+		u.minTier = minTier;
+		auto pick = [=](int tier) {
+			std::vector<Config> all = gen(tier, disp), mine;
+			for(size_t i = 0; i < all.size(); ++i) if((int)(i % NSHARDS) == shard) mine.push_back(all[i]);
+			return mine;
+		};
+		u.run = [=](Ctx & ctx, UnitReport & rep, int tier) {
+			std::vector<Config> mine = pick(tier);
+			rep.num["configs"] = (double)mine.size();
+			Sched & s = sched();
+			double states = 0; long maxPoints = 0;
+			for(size_t ci = 0; ci < mine.size(); ++ci) {
+				const Config & cfg = mine[ci];
+				if(ctx.samples.size() < 3) ctx.samples.push_back(cfg.name());
+				std::unordered_set<uint64_t> va, vb;
+				s.stateful = true; s.visitedA = &va; s.visitedB = &vb; s.maxSteps = 20000;
+				DfsResult r = dfs(ctx, 1 << 24, [&]() {
+					ctx.ex.choose(100000, 100000, K_OP);
+					Run<Target> run(ctx, cfg); run.stateful = true;
+					run.run();
+					maxPoints = std::max(maxPoints, sched().steps);
+				}, nullptr, std::vector<int>{(int)ci + 1});
+				s.stateful = false;
+				states += (double)va.size();
+				if(!r.complete) { rep.exhaustive = false; break; }
+				rep.num["configs_completed"] += 1;
+			}
+			rep.num["states"] = states;
+			rep.num["pruned_executions"] = (double)s.prunedCount;
+			rep.num["max_points_per_execution"] = (double)maxPoints;
+			rep.num["executions"] = (double)ctx.executions;
+			rep.str["config"] = fmt("%s (%s) shard %d/%d: %zu configurations, ALL interleavings (visited-state pruning, no preemption bound)", fam.c_str(), Target::name(), shard, NSHARDS, mine.size());
+		};
+		u.replay = [=](Ctx & ctx, const std::vector<int> & seq) {
+			if(seq.empty()) return;
+			std::vector<Config> mine = pick(ctx.tier);
+			size_t ci = (size_t)seq[0] - 1;
+			if(ci >= mine.size()) return;
+			ctx.ex.prefix = seq; ctx.ex.stack.clear(); ctx.ex.defaultsOnly = true; ctx.ex.beginExecution();
+			ctx.ex.choose(100000, 100000, K_OP);
+			ctx.tracing = true; ctx.trace.clear(); ctx.failed = false;
+			sched().stateful = false;
+			ctx.log("configuration: " + mine[ci].name());
+			Run<Target> run(ctx, mine[ci]);
+			run.run();
+		};
+		units().push_back(u);
+	}
+}
+
 struct PolV { using Threading = VThreading; };
 struct PolSpin { using Threading = eventpp::GeneralThreading<eventpp::SpinLock, VAtomic, VCondVar>; };
 struct PolVMap { using Threading = VThreading; template <typename K, typename V> using Map = VOrderedMap<K, V>; };
@@ -401,6 +487,12 @@ static struct Register {
 #endif
 #if VERIF_SUB < 0 || VERIF_SUB == 3
 		addFamily<DispT<PolVHash> >("C03/dispatcher/vmutex-unordered_map", true, 2, 4, 0);
+#endif
+#if VERIF_SUB < 0 || VERIF_SUB == 5
+		addStatefulFamily<ListT<PolV> >("C03/all-interleavings/list", false, 0);
+#endif
+#if VERIF_SUB < 0 || VERIF_SUB == 6
+		addStatefulFamily<DispT<PolVMap> >("C03/all-interleavings/dispatcher-map", true, 1);
 #endif
 #if VERIF_SUB < 0 || VERIF_SUB == 4
 		addFamily<DispT<PolSpinMap> >("C03/dispatcher/spinlock-unordered_map", true, 2, 3, 1);
